@@ -175,3 +175,104 @@ func (e *Engine) tableDef(spec string) (string, error) {
 	}
 	return fmt.Sprintf("(define-fun %s ((i (_ BitVec %d))) (_ BitVec %d) %s)", fs[1], w, ew, body), nil
 }
+
+// ---------- immutable scalar globals ----------
+
+type globalConst struct {
+	immutable bool
+	kind      string // "const", "sentinel", "unknown"
+	val       *ssa.Const
+}
+
+func (e *Engine) allFuncs() []*ssa.Function {
+	if e.funcsCache != nil {
+		return e.funcsCache
+	}
+	seen := map[*ssa.Function]bool{}
+	var all []*ssa.Function
+	var add func(f *ssa.Function)
+	add = func(f *ssa.Function) {
+		if f == nil || seen[f] {
+			return
+		}
+		seen[f] = true
+		all = append(all, f)
+		for _, a := range f.AnonFuncs {
+			add(a)
+		}
+	}
+	for _, p := range e.prog.AllPackages() {
+		if !strings.HasPrefix(p.Pkg.Path(), "rcproxy") {
+			continue
+		}
+		for _, m := range p.Members {
+			switch t := m.(type) {
+			case *ssa.Function:
+				add(t)
+			case *ssa.Type:
+				for _, tt := range []types.Type{t.Type(), types.NewPointer(t.Type())} {
+					ms := e.prog.MethodSets.MethodSet(tt)
+					for i := 0; i < ms.Len(); i++ {
+						add(e.prog.MethodValue(ms.At(i)))
+					}
+				}
+			}
+		}
+	}
+	e.funcsCache = all
+	return all
+}
+
+// globalConstInfo decides whether a scalar package-level variable is assigned only by its
+// package initialiser (whole-program scan of the rcproxy packages) and what it is initialised to.
+func (e *Engine) globalConstInfo(g *ssa.Global) *globalConst {
+	if gc, ok := e.gconsts[g]; ok {
+		return gc
+	}
+	gc := &globalConst{immutable: true, kind: "unknown"}
+	e.gconsts[g] = gc
+	nInit := 0
+	for _, f := range e.allFuncs() {
+		isInit := f.Name() == "init" && f.Synthetic != ""
+		for _, b := range f.Blocks {
+			for _, in := range b.Instrs {
+				for _, op := range in.Operands(nil) {
+					if *op != ssa.Value(g) {
+						continue
+					}
+					switch t := in.(type) {
+					case *ssa.Store:
+						if t.Addr != ssa.Value(g) {
+							gc.immutable = false // address stored somewhere
+							continue
+						}
+						if !isInit {
+							gc.immutable = false
+							continue
+						}
+						nInit++
+						switch v := t.Val.(type) {
+						case *ssa.Const:
+							gc.kind, gc.val = "const", v
+						case *ssa.Call:
+							if c := v.Call.StaticCallee(); c != nil && c.Name() == "New" && c.Pkg != nil && strings.HasSuffix(c.Pkg.Pkg.Path(), "errors") {
+								gc.kind = "sentinel"
+							}
+						case *ssa.Convert:
+							if c, ok := v.X.(*ssa.Const); ok {
+								gc.kind, gc.val = "const", c
+							}
+						}
+					case *ssa.UnOp, *ssa.DebugRef:
+					default:
+						gc.immutable = false // address escapes
+					}
+				}
+			}
+		}
+	}
+	if nInit > 1 {
+		gc.kind = "unknown"
+	}
+	return gc
+}
